@@ -300,6 +300,19 @@ func (c *Conn) Write(p []byte) (int, error) {
 	}
 }
 
+// CloseRead shuts down the reading side of this end only (what a peer sees
+// when the other host has gone but its own data still arrives, or after
+// shutdown(SHUT_RD)): the other end's writes fail with "broken pipe" from now
+// on, its reads and this end's writes go on working.
+//
+//go:norace
+func (c *Conn) CloseRead() {
+	vsched.Do(&vsched.Op{Kind: vsched.KClose, Obj: &c.in.obj, Write: true, Do: func() {
+		c.in.rclosed = true
+		c.in.buf = nil
+	}})
+}
+
 //go:norace
 func (c *Conn) Close() error {
 	var err error
